@@ -4,6 +4,7 @@ import (
 	"fmt"
 	"sort"
 	"strings"
+	"time"
 
 	signaling "github.com/aperturerobotics/bifrost/signaling/rpc"
 	signaling_rpc_server "github.com/aperturerobotics/bifrost/signaling/rpc/server"
@@ -218,7 +219,9 @@ func (t *strace) apply(o sop) bool {
 		s.start(t.srv, false)
 		t.classes["request-before-init"] = true
 		t.hist = append(t.hist, o.String())
-		t.settle()
+		// the handler must return with an error; it is given a generous bound (it may not even have been scheduled
+		// yet when the harness looks)
+		waitFor(8*time.Second, func() bool { e, _ := s.ended(); return e })
 		if ended, err := s.ended(); !ended || err == nil {
 			t.classes["preinit-not-rejected"] = true
 		}
